@@ -14,9 +14,13 @@ import Gv.Model.Phase
 * the rows are reversed back and the coordinates converted (`start = len - end - 1`, …).
 
 `align/phaser.go` `alignAgainstRefsNT`: every reference × strand is aligned with that aligner, the first
-strictly best score wins, and the result is sliced out of the winning strand.  Two run-time panics of the
-code are part of the model (`NTOut.panic`): no alignment scores above 0 (`bestseq` stays `nil`), and
-`beststart + phase > bestend` (slice bounds).  Core-only.
+strictly best score wins, and the result is sliced out of the winning strand.  With
+`proposed_fixes/c16-phaser-no-positive-alignment.diff` and `c16-phaser-frame-shift-bounds.diff` (the code the
+model mirrors): when no alignment scores above 0 (`bestseq == nil`) the sequence comes back as a *removed*
+result carrying the untrimmed input (`NTOut.removed`), and the start of the codon sequence is clamped to the
+end of the trimmed sequence (`beststart + phase > bestend` gives an empty codon sequence, whose translation is
+then refused: the result carries an error).  Before these two repairs both situations were run-time panics of
+the worker goroutine.  Core-only.
 -/
 namespace Gv.Model.PhaseAlign
 open Gv Gv.Model Gv.Model.SW Gv.Model.Phase
@@ -127,9 +131,15 @@ def ntStep (c : NTCfg) (seq orf : Seq) (best : NTBest) (rev : Bool) : NTStep :=
 
 inductive NTOut
   | ok (p : Phased) (h : Hit)
+  /-- `Removed: true` because no alignment has a positive score (`noHitPhasedSequence`) -/
+  | removed (p : Phased)
   | err      -- `PhasedSequence.Err` is set
   | panic    -- run-time panic in the worker goroutine: the process dies
   deriving Repr, DecidableEq
+
+/-- `noHitPhasedSequence(seq)`: position 0, the untrimmed input as nucleotide and codon sequence, an empty
+amino-acid sequence -/
+def noHit (seq : Seq) : Phased := { position := 0, nt := seq, codon := seq, aa := some [] }
 
 /-- the two nested loops: references, then strands (`phases = 1` or `2`) -/
 def ntSelect (c : NTCfg) (seq : Seq) : List Seq → NTBest → NTStep
@@ -151,13 +161,13 @@ def phaseNT (c : NTCfg) (code : List (List Byte × Byte)) (orfs : List Seq) (seq
   | .panic => NTOut.panic
   | .go best =>
     match best.hit with
-    | none => NTOut.panic                      -- `bestseq.Name()` on a nil interface
+    | none => NTOut.removed (noHit seq)        -- `bestseq == nil`
     | some h =>
       let tmp := strandOf seq h
       let bestend := if c.cutend then h.seqend + 1 else tmp.length
-      let ph := (3 - h.frame % 3) % 3
-      -- Go slice expressions `[beststart:bestend]`, `[beststart+phase:bestend]`
-      if h.seqstart > bestend || h.seqstart + ph > bestend then NTOut.panic
+      -- Go slice expression `[beststart:bestend]`; `[codonstart:bestend]` is clamped (`assembleNT`: `slice`
+      -- of an inverted range is empty)
+      if h.seqstart > bestend then NTOut.panic
       else NTOut.ok (assembleNT code tmp h c.cutend) h
 
 end Gv.Model.PhaseAlign
